@@ -303,12 +303,15 @@ CO_STACKS = ["", "lim", "take", "enum", "map", "map.lim", "lim.map", "take.lim",
              "take.enum", "lim.enum.map"]
 
 
+CO_RCOL_STACKS = ["map", "map.lim", "lim.map", "enum.map", "map.take", "lim.enum.map"]
+
+
 def gen_co(rng, count, tag, terms=("fe", "tfe", "col"), stacks=None, drop=0.015, panic=0.02):
     out = []
     stacks = stacks or CO_STACKS
     for c in range(count):
-        stack = rng.choice(stacks)
         term = rng.choice(terms)
+        stack = rng.choice([x for x in stacks if x in CO_RCOL_STACKS] if term == "rcol" else stacks)
         n = rng.randint(0, 5)
         nc = 1 + 2 * n
         take = rng.randint(0, n + 1) if "take" in stack else "-"
@@ -340,7 +343,7 @@ def gen_co(rng, count, tag, terms=("fe", "tfe", "col"), stacks=None, drop=0.015,
             elif r < 1.0 - 0.05:
                 st.append(cf() + "X")
             return ",".join(st)
-        scripts = [",".join(src)] + [work(True) for _ in range(n)] + [work(False) for _ in range(n)]
+        scripts = [",".join(src)] + [work(True) for _ in range(n)] + [work(term == "rcol") for _ in range(n)]
         ops = []
         for _ in range(rng.randint(2, 40)):
             r = rng.random()
